@@ -301,13 +301,20 @@ def _reads_through(fn, new_local, loaded_roots):
     return None
 
 
-def _bumps_tag(fn, new_local, loaded_roots):
-    """new value contains (something derived from the loaded value) + 1"""
+def _bumps_tag(fn, new_local, loaded_roots, fx=None, depth=0):
+    """new value contains (something derived from the loaded value) + 1; the increment may sit in a
+    crate-local helper that receives the loaded word (followed two levels deep when facts are given)"""
     if new_local is None:
         return False
     fw = fn.forward_locals(loaded_roots)
     locs, sites = fn.backslice([new_local])
     for loc, kind, pl in sites:
+        if kind == "call" and fx is not None and depth < 2 and pl.get("loc") and fx.has(pl["f"]):
+            idx = [i + 1 for i, a in enumerate(pl["a"]) if op_local(a) in fw]
+            if idx:
+                cf = Fn(fx.raw(pl["f"]))
+                if _bumps_tag(cf, 0, set(idx), fx, depth + 1):
+                    return True
         if kind == "assign" and pl[2][0] == "bin" and pl[2][1] in ("Add", "AddWithOverflow", "AddUnchecked"):
             a, b = pl[2][2], pl[2][3]
             for x, y in ((a, b), (b, a)):
@@ -321,7 +328,7 @@ def _bumps_tag(fn, new_local, loaded_roots):
     return False
 
 
-def aba(ctx, fn, rule="R-ABA"):
+def aba(ctx, fn, rule="R-ABA", fx=None):
     """CAS-pop on an intrusive list must be tag-versioned or lock-covered"""
     n = 0
     guards = None
@@ -340,7 +347,7 @@ def aba(ctx, fn, rule="R-ABA"):
         if not through:
             continue           # push-style or counter-style CAS: no node read
         n += 1
-        tagged = _bumps_tag(fn, new, loaded)
+        tagged = _bumps_tag(fn, new, loaded, fx)
         if guards is None:
             guards = guard_locals(fn)
         locked = bool(guards_live_at(fn, term_loc(fn, b), guards))
@@ -356,7 +363,7 @@ def aba(ctx, fn, rule="R-ABA"):
     return n
 
 
-def aba_push_tags(ctx, fns, rule="R-ABA.push"):
+def aba_push_tags(ctx, fns, rule="R-ABA.push", fx=None):
     """for atomics that are popped with a version tag, every other CAS on the same atomic must bump it too"""
     tagged_fields = set()
     allcas = []
@@ -370,7 +377,7 @@ def aba_push_tags(ctx, fns, rule="R-ABA.push"):
                 if kind == "call" and is_atomic_call(pl) and pl["f"].rsplit("::", 1)[-1] == "load":
                     loaded.add(pl["d"][0])
             loaded = loaded or {cur}
-            bumps = _bumps_tag(fn, new, loaded)
+            bumps = _bumps_tag(fn, new, loaded, fx)
             pops = bool(_reads_through(fn, new, loaded))
             allcas.append((fn, fld, c, bumps, pops))
             if pops and bumps:
